@@ -701,9 +701,14 @@ func genAddress() {
 	g.def("versionNFT", "Int", p.intConst("NFT"))
 	g.def("blake2b160Length", "Int", p.intConst("Blake2b160Length"))
 	g.def("prefixConsts", "List Int", "["+p.intConst("IOTAMainnet")+", "+p.intConst("IOTADevnet")+", "+p.intConst("ShimmerMainnet")+", "+p.intConst("ShimmerDevnet")+"]")
-	g.src(p, "Bech32", "ParseBech32", "ParsePrefix", "Prefix.String",
+	// Bech32, ParseBech32, ParsePrefix, Prefix.String and the Bytes / Version methods of the three address types are
+	// translated as code by genAddressCode (stage 11, loops_iface.go) and tied in Iota/Tie/AddressCode.lean: not pinned by
+	// text any more (and not part of rest_address)
+	for _, n := range []string{"Bech32", "ParseBech32", "ParsePrefix", "Prefix.String",
 		"Ed25519Address.Bytes", "AliasAddress.Bytes", "NFTAddress.Bytes",
-		"Ed25519Address.Version", "AliasAddress.Version", "NFTAddress.Version")
+		"Ed25519Address.Version", "AliasAddress.Version", "NFTAddress.Version"} {
+		pinnedFns[p.method(n)] = true
+	}
 	m := repoPkg("pkg/migration")
 	g.def("migPrefix", "List Nat", leanBytes(m.stringConst("Prefix")))
 	g.def("migSuffix", "List Nat", leanBytes(m.stringConst("Suffix")))
